@@ -3,12 +3,14 @@ C15 driver: a correspondence case (the same JSON from which the Go runner builds
 and the concurrent calls) is reduced to the footprint model of KinModel/ConcCase.lean and executed.
 
 case: { doc: { ops: [ {path, method, params:[{name,in,schema}], body: {mt, schema} | null, resp: {schema} | null} ],
+               items: { path: [ {name,in,schema} ] },      -- path-level parameters (PathItem.Parameters)
                schemas: { name: schema } },
         calls: [ {k: frg|frl|vreq|vresp|visit|gen, op: idx, skipDefaults: bool, schema: name, opts: [..], type: idx} ],
         g, per, rounds, cold, sched }
 -/
 import KinModel.Drv.Util
 import KinModel.ConcCase
+import KinModel.ConcSlice
 open Lean
 namespace KinModel.Drv.C15
 open KinModel.Drv KinModel.Conc
@@ -17,8 +19,10 @@ structure Feat where
   patterns : List String := []
   arrays : Bool := false
   shared : Bool := false
+  formats : List String := []
 
-def Feat.merge (a b : Feat) : Feat := ⟨a.patterns ++ b.patterns, a.arrays || b.arrays, a.shared || b.shared⟩
+def Feat.merge (a b : Feat) : Feat :=
+  ⟨a.patterns ++ b.patterns, a.arrays || b.arrays, a.shared || b.shared, a.formats ++ b.formats⟩
 
 def objKVs (j : Json) : List (String × Json) :=
   match j with | .obj kvs => kvs.toList | _ => []   -- TreeMap: sorted by key
@@ -74,7 +78,8 @@ def feat (sc : Json) : Nat → Json → Feat
   | fuel + 1, s0 =>
     let s := deref sc s0
     let own : Feat := { patterns := (match field? s "pattern" with | some (.str p) => [p] | _ => []),
-                        arrays := getStr s "type" == "array" }
+                        arrays := getStr s "type" == "array" || (strs (getArr s "type")).contains "array",
+                        formats := (match field? s "format" with | some (.str f) => [f] | _ => []) }
     (children s).foldl (fun acc c => acc.merge (feat sc fuel c)) own
 
 def usesRef : Nat → Json → Bool
@@ -92,9 +97,17 @@ def indexOf (l : List String) (x : String) : Nat :=
 
 def dedup (l : List String) : List String := l.foldl (fun acc x => if acc.contains x then acc else acc ++ [x]) []
 
-def opSchemas (op : Json) (k : String) : List Json :=
+/-- path-level parameters of the path item of `op` -/
+def itemParamsOf (doc op : Json) : List Json := getArr (getD doc "items" Json.null) (getStr op "path")
+
+/-- `operationParameters.GetByInAndName(in, name) != nil`: the path-level parameter is skipped -/
+def overridden (op p : Json) : Bool :=
+  (getArr op "params").any (fun q => getStr q "in" == getStr p "in" && getStr q "name" == getStr p "name")
+
+def opSchemas (doc op : Json) (k : String) : List Json :=
   match k with
-  | "vreq" => (getArr op "params").map (fun p => getD p "schema" Json.null) ++
+  | "vreq" => ((itemParamsOf doc op).filter (fun p => !overridden op p)).map (fun p => getD p "schema" Json.null) ++
+              (getArr op "params").map (fun p => getD p "schema" Json.null) ++
               (if isNull op "body" then [] else [getD (getD op "body" Json.null) "schema" Json.null])
   | "vresp" => if isNull op "resp" then [] else [getD (getD op "resp" Json.null) "schema" Json.null]
   | _ => []
@@ -105,7 +118,7 @@ def callFeat (doc : Json) (call : Json) : Feat :=
   let schemas : List Json :=
     match k with
     | "visit" => [getD (getD doc "schemas" Json.null) (getStr call "schema") Json.null]
-    | _ => opSchemas (ops.getD (getNat call "op") Json.null) k
+    | _ => opSchemas doc (ops.getD (getNat call "op") Json.null) k
   schemas.foldl (fun acc s => acc.merge (schemaFeat (getD doc "schemas" Json.null) s)) {}
 
 def parseKind : String → OpKind
@@ -128,11 +141,30 @@ def insertSorted (x : String) : List String → List String
   | [] => [x]
   | y :: ys => if x < y then x :: y :: ys else if x == y then y :: ys else y :: insertSorted x ys
 
+def paramKey (p : Json) : String := getStr p "in" ++ ":" ++ getStr p "name"
+
+/-- lengths of the lists found in schemas (required / enum / allOf / anyOf / oneOf / type lists): which of the
+    document's slices were decoded with spare capacity -/
+def listLens : Nat → Json → List Nat
+  | 0, _ => []
+  | fuel + 1, s =>
+    [(getArr s "required").length, (getArr s "enum").length, (getArr s "allOf").length, (getArr s "anyOf").length,
+     (getArr s "oneOf").length, (getArr s "type").length] ++ (children s).flatMap (listLens fuel)
+
+/-- some schema declares `type` as a list of two or more types -/
+def hasTypeList : Nat → Json → Bool
+  | 0, _ => false
+  | fuel + 1, s => decide ((getArr s "type").length ≥ 2) || (children s).any (hasTypeList fuel)
+
 def handle (j : Json) : Json :=
   let doc := getD j "doc" Json.null
   let calls := getArr j "calls"
   let feats := calls.map (callFeat doc)
   let allPats := dedup (feats.flatMap (·.patterns))
+  let docOps := getArr doc "ops"
+  let paths := (docOps.map (fun o => getStr o "path")).foldl (fun acc k => insertSorted k acc) []
+  let opOf := fun (c : Json) => docOps.getD (getNat c "op") Json.null
+  let routed := fun (c : Json) => getStr c "k" != "visit" && getStr c "k" != "gen" && getNat c "op" < docOps.length
   let ops : List OpM := (calls.zip feats).map (fun (c, f) =>
     { kind := parseKind (getStr c "k"),
       patterns := (dedup f.patterns).map (indexOf allPats),
@@ -141,7 +173,12 @@ def handle (j : Json) : Json :=
       sharedDefault := f.shared,
       genType := getNat c "type",
       recursive := getBool c "rec",
-      dialect := if getStr c "rx" == "ci" then 1 else 0 })
+      dialect := if getStr c "rx" == "ci" then 1 else 0,
+      item := if routed c then indexOf paths (getStr (opOf c) "path") else 0,
+      itemParams := if routed c then (itemParamsOf doc (opOf c)).length else 0,
+      ownParams := if routed c then (getArr (opOf c) "params").length else 0,
+      registries := !f.formats.isEmpty || (getStr c "k" == "vreq" && routed c && !isNull (opOf c) "body" && !getBool c "exBody") ||
+                    getStr c "k" == "vresp" })
   let cm : CaseM := { ops := ops, g := getNat j "g", per := getNat j "per", sched := getNat j "sched" }
   let out := outcome cm
   let kinds := (ops.map (fun o => kindStr o.kind)).foldl (fun acc k => insertSorted k acc) []
@@ -150,7 +187,7 @@ def handle (j : Json) : Json :=
     kinds.map (fun k => s!"kind.{k}") ++ pairs kinds ++
     (if multi && ops.any (fun o => validates o.kind && !o.patterns.isEmpty) then ["pattern.cacheUse"] else []) ++
     (if multi && ops.any (fun o => validates o.kind && o.arrays) then ["unique.lazyInit"] else []) ++
-    (if multi && ops.any (fun o => o.kind = .gen) then ["typeinfo.cacheFill"] else []) ++
+    (if multi && ops.any (fun o => o.kind = .gen) then ["typeinfo.fillUse"] else []) ++
     (if multi && ops.any (fun o => validates o.kind && o.defaultsOn) then ["defaults.on"] else []) ++
     (if getBool j "cold" then ["cold.firstUse", "solo.freshProcess"] else []) ++
     -- per-call options that change verdicts, next to process-wide state
@@ -165,6 +202,32 @@ def handle (j : Json) : Json :=
     (if (getArr doc "ops").any (fun o => usesRef 6 (getD (getD o "body" Json.null) "schema" Json.null) ||
                                         usesRef 6 (getD (getD o "resp" Json.null) "schema" Json.null)) ||
         (objKVs (getD doc "schemas" Json.null)).any (fun (_, q) => usesRef 6 q) then ["doc.sharedRef"] else []) ++
+    -- process-wide registries read by validations
+    (let fs := dedup (feats.flatMap (·.formats))
+     (if fs.isEmpty then [] else ["registry.format"]) ++
+     (if fs.any (fun f => f == "c15fmt" || f == "c15even") then ["registry.format.custom"] else [])) ++
+    (let mts := dedup ((calls.filter (fun c => getStr c "k" == "vreq" && routed c && !isNull (opOf c) "body")).map
+                  (fun c => getStr (getD (opOf c) "body" Json.null) "mt"))
+     mts.map (fun m => s!"registry.bodyDecoder.{m}")) ++
+    (if calls.any (fun c => getStr c "k" == "gen" && (strs (getArr c "opts")).contains "customizer") then ["gen.customizer"] else []) ++
+    -- slices of the shared document: path-level parameter lists, and which of them were decoded with spare capacity
+    (let vq := calls.filter (fun c => getStr c "k" == "vreq" && routed c && !getBool c "miss")
+     let withItem := vq.filter (fun c => !(itemParamsOf doc (opOf c)).isEmpty)
+     (if withItem.isEmpty then [] else ["slices.pathLevelParams"]) ++
+     (if withItem.any (fun c => spareCap (itemParamsOf doc (opOf c)).length) then ["slices.pathLevelParams.spareCapacity"] else []) ++
+     (if withItem.any (fun c => let n := (itemParamsOf doc (opOf c)).length; let m := (getArr (opOf c) "params").length
+                                m > 0 && n + m ≤ decodedCap n) then ["slices.pathLevelParams.ownParamsFitSpare"] else []) ++
+     (if withItem.any (fun c => (itemParamsOf doc (opOf c)).any (overridden (opOf c))) then ["slices.pathLevelParams.overridden"] else []) ++
+     -- two calls on DIFFERENT operations of one path item whose own parameters differ
+     (if vq.any (fun c => vq.any (fun d => getNat c "op" != getNat d "op" && getStr (opOf c) "path" == getStr (opOf d) "path" &&
+            (getArr (opOf c) "params").map paramKey != (getArr (opOf d) "params").map paramKey))
+      then ["slices.sharedPathItem.differentOwnParams"] else []) ++
+     (if vq.any (fun c => spareCap (getArr (opOf c) "params").length) then ["slices.operationParams.spareCapacity"] else [])) ++
+    (let lens := (objKVs (getD doc "schemas" Json.null)).flatMap (fun (_, q) => listLens 6 q) ++
+                 docOps.flatMap (fun o => listLens 6 (getD (getD o "body" Json.null) "schema" Json.null) ++
+                                          listLens 6 (getD (getD o "resp" Json.null) "schema" Json.null))
+     if lens.any spareCap then ["slices.schemaLists.spareCapacity"] else []) ++
+    (if (objKVs (getD doc "schemas" Json.null)).any (fun (_, q) => hasTypeList 6 q) then ["schema.typeList"] else []) ++
     -- the input classes of the two repaired defects (F-C15-1, F-C15-2): kept visible as coverage
     (if ops.any (fun o => validates o.kind && o.defaultsOn && o.sharedDefault) then ["defaults.objectDefault"] else []) ++
     (if ops.any (fun o => o.kind = .gen && o.recursive) then ["typeinfo.recursiveType"] else [])
@@ -174,6 +237,10 @@ def handle (j : Json) : Json :=
                    ("docChanged", Json.bool specOutcome.docChanged)]),
     ("excl", Json.arr #[]),
     ("branches", jstrs branches),
+    -- what the model says encoding/json leaves behind for every path-level parameter list: [path, len, cap]
+    ("caps", Json.arr ((paths.filter (fun p => !(getArr (getD doc "items" Json.null) p).isEmpty)).map (fun p =>
+        let n := (getArr (getD doc "items" Json.null) p).length
+        Json.arr #[Json.str p, Json.num n, Json.num (decodedCap n)])).toArray),
     ("trace_len", Json.num (caseTrace cm).length)]
 
 end KinModel.Drv.C15
